@@ -1,6 +1,7 @@
 (* C02 — derived edges are exactly the boundary segments of the faces.
    Statements only; each closed by `exact` of a lemma from Proofs/, followed by Print Assumptions. *)
-From Verif Require Import Base C02 C02_proofs C02_check C02_check_proofs.
+From Coq Require Import Sorting.Permutation.
+From Verif Require Import Base C02 C02_proofs C02_check C02_check_proofs C02_sup C02_sup_proofs.
 
 (* edge_node_connectivity lists exactly the unordered consecutive corner pairs (incl. closing pair) *)
 Theorem C02_edges_exact : forall m t q, std_table m t -> (In q (edges t) <-> In q (spec_pairs t)).
@@ -53,3 +54,31 @@ Theorem C02_model_meets_spec : forall m t, std_table m t ->
   C02_spec t (edges t) (face_edges t m) (n_nodes_per_face t).
 Proof. exact model_meets_spec. Qed.
 Print Assumptions C02_model_meets_spec.
+
+(* ---- grids whose source supplied the edge table (any edge order, any pair orientation) ---- *)
+
+(* the supplied table is kept exactly when it lists the faces' edges once each (up to orientation) ... *)
+Theorem C02_supplied_accept_iff : forall t S,
+  sup_accepts t S = true <-> Permutation (map norm_pair S) (edges t).
+Proof. exact sup_accepts_iff. Qed.
+Print Assumptions C02_supplied_accept_iff.
+
+(* ... and then it is what the grid reports afterwards, row for row; otherwise the derived table is *)
+Theorem C02_supplied_table_kept : forall m t S,
+  let R := sup_face_edges t m S in
+  (sr_kept R = true -> sr_edges R = S) /\
+  (sr_kept R = false -> sr_edges R = edges t /\ sr_face_edges R = face_edges t m).
+Proof. exact sup_kept_intact. Qed.
+Print Assumptions C02_supplied_table_kept.
+
+(* either way the reported table lists exactly the faces' boundary segments, each once *)
+Theorem C02_supplied_edges_exact : forall m t S, std_table m t ->
+  let R := sup_face_edges t m S in
+  (forall q, In q (map norm_pair (sr_edges R)) <-> In q (spec_pairs t)) /\ NoDup (map norm_pair (sr_edges R)).
+Proof. exact sup_edges_exact. Qed.
+Print Assumptions C02_supplied_edges_exact.
+
+(* and face_edge_connectivity[f, j] names, IN THE REPORTED TABLE, the edge joining corners j and j+1 of f *)
+Theorem C02_supplied_face_edge : forall m t S, std_table m t -> sup_fe_ok t m (sup_face_edges t m S).
+Proof. exact sup_face_edge_spec. Qed.
+Print Assumptions C02_supplied_face_edge.
